@@ -262,6 +262,7 @@ class Interp:
         self.lib = lib                      # library table (see lib.py)
         self.summaries = summaries or {}    # 'module.qualname' -> callable(interp, args, kwargs) (callee contracts)
         self.loop_hints = loop_hints or {}
+        self.loop_opts = {}                 # choices between equivalent closed forms in the loop rule (Unit.loop_opts)
         self.depth = 0
         self.max_forks = 4096
         self.used_summaries = set()
@@ -1216,6 +1217,9 @@ class Interp:
         if isinstance(v, A.Arr) and v.shape == () :
             return v.get(())
         if isinstance(v, Ref) and v.kind == "list":
+            c = v.content
+            if not isinstance(c, A.SeqVal) and any(isinstance(x, str) for x in c):
+                return v          # list of labels (DataFrame column selection), not an index array
             return A.from_nested(self.to_py(v))
         return v
 
